@@ -174,9 +174,11 @@ func MakeOAuth2PID(provider, uid string) string {
 
 // ParseOAuth2PID returns the uid and provider for a given OAuth2 pid
 func ParseOAuth2PID(pid string) (provider, uid string, err error) {
-	splits := strings.Split(pid, ";;")
+	// The uid comes from the provider and may itself contain the separator,
+	// everything after the second separator belongs to it.
+	splits := strings.SplitN(pid, ";;", 3)
 	if len(splits) != 3 {
-		return "", "", errors.Errorf("failed to parse oauth2 pid, too many segments: %s", pid)
+		return "", "", errors.Errorf("failed to parse oauth2 pid, too few segments: %s", pid)
 	}
 	if splits[0] != "oauth2" {
 		return "", "", errors.Errorf("invalid oauth2 pid, did not start with oauth2: %s", pid)
